@@ -16,7 +16,17 @@ Per block:
  (b) correspondence with the Lean CSE model, both with the collision-free table (`cse`) and with the
      hashed table fed with the hashes observed on the real operations (`cseh`);
  (c) twin scf.if operations (same condition, bodies equal / differing in one constant or operation):
-     the region comparison `is_structurally_equivalent`, oracle (a) only.
+     the region comparison `is_structurally_equivalent`, oracle (a) only;
+ (d) entry points and invocation histories: `cse` is public as a pass and as the function
+     `cse(Operation | Block | Region[, rewriter])` (control-flow-hoist and the stencil canonicalisation
+     call it on single blocks with their PatternRewriter).  The property speaks about every run, so
+     every block / scf.if program is also put, on a fresh clone each, through EVERY entry point, one
+     after the other in the same process (and once twice in a row on the same object): each result
+     must verify, must be CLOSED (every operand is defined inside the module the run was given --
+     nothing may come from an earlier run's program), and must either print exactly as the result of
+     the pass (which (a) and (b) have checked) or pass (a) itself.  A failure is reported with the
+     history of runs that leads to it, reduced in fresh processes to the shortest suffix that still
+     fails there.
 """
 from __future__ import annotations
 
@@ -224,6 +234,276 @@ def if_twin_program(rng: Any) -> tuple[str, list[str]]:
     return text, ["i1", t]
 
 
+# ------------------------------------------------------------------------------------------------
+# (d) entry points and invocation histories
+# ------------------------------------------------------------------------------------------------
+
+ENTRIES = ["pass", "module-op", "func-op", "region", "block", "block+rewriter", "block+pattern-rewriter"]
+ENTRY_SITE = "xdsl.transforms.common_subexpression_elimination.cse"
+
+
+def _func(m: Any) -> Any:
+    return next(o for o in m.body.block.ops if o.name == "func.func")
+
+
+def apply_entry(entry: str, m: Any) -> None:
+    """real cse, in place, on the first function of the module through one public entry point"""
+    from xdsl.pattern_rewriter import PatternRewriter
+    from xdsl.rewriter import Rewriter
+    from xdsl.transforms.common_subexpression_elimination import cse
+
+    if entry == "pass":
+        c14_tv.get_pass("cse")().apply(c14_tv.xctx(), m)
+    elif entry == "module-op":
+        cse(m)
+    elif entry == "func-op":
+        cse(_func(m))
+    elif entry == "region":
+        cse(_func(m).body)
+    elif entry == "block":
+        cse(_func(m).body.block)
+    elif entry == "block+rewriter":
+        cse(_func(m).body.block, Rewriter())
+    elif entry == "block+pattern-rewriter":
+        cse(_func(m).body.block, PatternRewriter(_func(m)))
+    else:
+        raise core.InfraError("unknown cse entry point " + entry)
+
+
+def foreign_operand(m: Any) -> str | None:
+    """None if the module is closed; else a description of the first operand whose definition
+    (operation or block) does not lie inside the module"""
+    for op in m.walk():
+        for i, v in enumerate(op.operands):
+            node = v.owner
+            while node is not None and node is not m:
+                node = node.parent_node
+            if node is None:
+                o = v.owner
+                return f"operand {i} of {op.name} is defined by {getattr(o, 'name', 'a block')} outside the module"
+    return None
+
+
+def run_entry(entry: str, m: Any, times: int = 1) -> tuple[str, str]:
+    """('ok', '') | ('raise', ExcName) | ('invalid', ExcName) | ('foreign', description); `m` is changed in place"""
+    for _ in range(times):
+        try:
+            apply_entry(entry, m)
+        except core.InfraError:
+            raise
+        except Exception as e:  # noqa: BLE001
+            return ("raise", core.exc_name(e))
+        fo = foreign_operand(m)
+        if fo is not None:
+            return ("foreign", fo)
+        try:
+            m.verify()
+        except Exception as e:  # noqa: BLE001
+            return ("invalid", core.exc_name(e))
+    return ("ok", "")
+
+
+def sem_compare(ctx: core.Ctx, m0: Any, m1: Any, arg_types: list[str], vecs: list[list[Any]]) -> tuple[int, str, str] | None:
+    """(index of the input, before, after) where source defined and target differs; None if none"""
+    s0, s1 = c14_tv.ser(m0, False), c14_tv.ser(m1, False)
+    outs = ctx.model("sem", c14_tv.run_lines(s0, arg_types, vecs) + c14_tv.run_lines(s1, arg_types, vecs))
+    n = len(vecs) + 1
+    if outs[0] != "ok" or outs[n] != "ok":
+        raise core.InfraError("MiniIR serialisation rejected by the Lean parser")
+    a, b = outs[1:n], outs[n + 1:]
+    i = c14_tv.compare_outputs(a, b)
+    return None if i is None else (i, a[i], b[i])
+
+
+def replay_history(ctx: core.Ctx, case: dict[str, Any], quiet: bool = False) -> int:
+    """run the recorded sequence of cse invocations (each on a fresh parse of its program) in this
+    process; 1 if some run raises / leaves invalid or non-closed IR / changes the result"""
+    say = (lambda *a: None) if quiet else print
+    bad = 0
+    steps = case["cse_history"]
+    for k, st in enumerate(steps):
+        m = c14_tv.parse(st["program"])
+        before = m.clone()
+        kind, detail = run_entry(st["entry"], m, int(st.get("times", 1)))
+        say(f"run {k + 1}/{len(steps)}: cse through entry point '{st['entry']}'" + (f" x{st['times']}" if st.get("times", 1) != 1 else "") + " on")
+        say(st["program"])
+        if kind != "ok":
+            say(f"  outcome: {kind}: {detail}")
+            bad = 1
+            continue
+        vecs = [[c14_tv.parse_arg(t, s) for t, s in zip(st["arg_types"], vec)] for vec in st.get("args", [])]
+        d = sem_compare(ctx, before, m, st["arg_types"], vecs) if vecs else None
+        if d is not None:
+            say(f"  outcome: result changed on args {st['args'][d[0]]}\n    before: {d[1]}\n    after : {d[2]}")
+            bad = 1
+        else:
+            say("  outcome: valid, closed, results preserved")
+    return bad
+
+
+def _fails_in_fresh_process(steps: list[dict[str, Any]]) -> bool:
+    import json
+    import os
+    import subprocess
+    import tempfile
+
+    with tempfile.NamedTemporaryFile("w", suffix=".json", delete=False) as f:
+        json.dump({"case": {"cse_history": steps}}, f)
+    try:
+        r = subprocess.run([sys.executable, str(core.VERIF / "harness" / "run_check.py"), "C14", "--replay", f.name],
+                           capture_output=True, text=True, timeout=300, env=dict(os.environ))
+        return r.returncode == 1
+    except subprocess.TimeoutExpired:
+        return False
+    finally:
+        os.unlink(f.name)
+
+
+def _top_ops(m: Any) -> list[Any]:
+    return [o for o in _func(m).body.block.ops if o.name != "func.return"]
+
+
+def needed_by(text: str, i: int) -> set[int]:
+    """indices of the top-level operations of the function that operation i (transitively) uses, and i"""
+    ops = _top_ops(c14_tv.parse(text))
+    pos = {id(o): k for k, o in enumerate(ops)}
+    need: set[int] = set()
+    todo = [i]
+    while todo:
+        k = todo.pop()
+        if k in need:
+            continue
+        need.add(k)
+        for o in ops[k].walk():
+            for v in o.operands:
+                if id(v.owner) in pos:
+                    todo.append(pos[id(v.owner)])
+    return need
+
+
+def restrict(text: str, keep: set[int]) -> str | None:
+    """the program with only the top-level operations `keep` of its function (all their results
+    returned); None if that is not a valid program"""
+    from xdsl.dialects import func
+    from xdsl.dialects.builtin import FunctionType
+
+    try:
+        m = c14_tv.parse(text)
+        f = _func(m)
+        blk = f.body.block
+        ops = _top_ops(m)
+        kept = [o for k, o in enumerate(ops) if k in keep]
+        vals = [r for o in kept for r in o.results]
+        ret = blk.last_op
+        blk.erase_op(ret)
+        blk.add_op(func.ReturnOp(*vals))
+        for k in reversed(range(len(ops))):
+            if k not in keep:
+                blk.erase_op(ops[k])
+        f.properties["function_type"] = FunctionType.from_lists(list(f.function_type.inputs.data), [v.type for v in vals])
+        m.verify()
+        out = str(m)
+        c14_tv.parse(out)
+        return out
+    except Exception:  # noqa: BLE001
+        return None
+
+
+class History:
+    """the cse invocations of this process, in order; failures are reported with the shortest suffix
+    of it that fails in a fresh process"""
+
+    def __init__(self, ctx: core.Ctx):
+        self.ctx = ctx
+        self.steps: list[dict[str, Any]] = []
+        self.reported: dict[str, int] = {}
+
+    def record(self, text: str, entry: str, arg_types: list[str], vecs: list[list[Any]], times: int = 1) -> int:
+        st: dict[str, Any] = {"program": text, "entry": entry, "arg_types": arg_types, "args": [[repr(v) for v in vec] for vec in vecs]}
+        if times != 1:
+            st["times"] = times
+        self.steps.append(st)
+        return len(self.steps) - 1
+
+    def reduce(self, steps: list[dict[str, Any]]) -> list[dict[str, Any]]:
+        """smaller programs in the steps (a prefix of the operations, then only what the last
+        operation of it uses), every reduction confirmed in a fresh process; bounded: 16 trials, 45 s"""
+        import time
+
+        trials = 0
+        deadline = time.time() + 45
+
+        def attempt(idx: int, base: str, keep: set[int]) -> bool:
+            nonlocal trials, steps
+            if trials >= 16 or time.time() > deadline:
+                return False
+            t = restrict(base, keep)
+            if t is None or t == steps[idx]["program"]:
+                return False
+            trials += 1
+            cand = [dict(st, program=t) if j == idx else st for j, st in enumerate(steps)]
+            if _fails_in_fresh_process(cand):
+                steps = cand
+                return True
+            return False
+
+        for idx in reversed(range(len(steps))):
+            base = steps[idx]["program"]
+            try:
+                n = len(_top_ops(c14_tv.parse(base)))
+            except Exception:  # noqa: BLE001
+                continue
+            lo, hi = 1, n
+            while lo < hi:
+                mid = (lo + hi) // 2
+                if attempt(idx, base, set(range(mid))):
+                    hi = mid
+                else:
+                    lo = mid + 1
+            try:
+                attempt(idx, base, needed_by(base, hi - 1))
+            except Exception:  # noqa: BLE001
+                pass
+        return steps
+
+    def fail(self, k: int, kind: str, detail: str, src: str = "") -> None:
+        ctx = self.ctx
+        klass = {"raise": f"raises {detail}", "invalid": f"leaves IR that does not verify ({detail})",
+                 "foreign": "leaves a use of a value defined outside the program", "differs": "changes the result"}[kind]
+        ctx.count("cse.entry_failures." + kind)
+        self.reported[kind] = self.reported.get(kind, 0) + 1
+        if self.reported[kind] > 1:
+            return  # one reduced report per class; the histogram has the rest
+        last = self.steps[k]
+        alone = [last]
+        found: list[dict[str, Any]] | None = None
+        if _fails_in_fresh_process(alone):
+            found = alone
+        else:
+            for j in range(k - 1, max(-1, k - 7), -1):
+                if _fails_in_fresh_process([self.steps[j], last]):
+                    found = [self.steps[j], last]
+                    break
+            if found is None:
+                for n in (12, 60, k + 1):
+                    cand = self.steps[max(0, k + 1 - n):k + 1]
+                    if _fails_in_fresh_process(cand):
+                        found = cand
+                        break
+        if found is not None and len(found) <= 3:
+            found = self.reduce(found)
+        if found is None:
+            # seen in this process, not reproducible from the recorded runs in a fresh one: counted, and
+            # reported as it stands (the whole history) so that it is not lost
+            ctx.count("cse.entry_failures.not_reproduced_in_fresh_process")
+            found = self.steps[:k + 1]
+        entry = last["entry"]
+        how = "on its own" if len(found) == 1 else f"after {len(found) - 1} earlier run(s) of cse in the same process"
+        ctx.fail(ENTRY_SITE, f"cse through '{entry}' {klass} ({'single run' if len(found) == 1 else 'depends on earlier runs'})",
+                 {"cse_history": found},
+                 f"cse entered through '{entry}' {klass} {how}: {detail}", detail or kind, src or "no exception; verified, closed IR with the results of the source")
+
+
 def run(ctx: core.Ctx) -> None:
     from xdsl.traits import is_side_effect_free
 
@@ -233,8 +513,28 @@ def run(ctx: core.Ctx) -> None:
     model_lines: list[str] = []
     model_expect: list[tuple[str, str]] = []
     sem_jobs: list[tuple[dict[str, Any], Any, Any, list[list[Any]]]] = []  # (p, module before, module after, inputs)
+    hist = History(ctx)
 
-    for _ in range(nblocks):
+    def through_entries(text: str, before: Any, ref: str, arg_types: list[str], vecs: list[list[Any]], turn: int) -> None:
+        """(d): the program through every other entry point, each on a fresh clone, in this process
+        one after the other (order rotating with `turn`; one entry is run twice on the same object)"""
+        rest = ENTRIES[1:]
+        rest = rest[turn % len(rest):] + rest[:turn % len(rest)]
+        for entry in rest:
+            mm = before.clone()
+            times = 2 if entry == rest[-1] else 1
+            k = hist.record(text, entry, arg_types, vecs, times)
+            kind, detail = run_entry(entry, mm, times)
+            ctx.ev()
+            ctx.count("cse.entry." + entry)
+            if kind != "ok":
+                hist.fail(k, kind, detail)
+            elif str(mm) != ref:
+                # not what the pass made of it: this result has to stand oracle (a) itself
+                ctx.count("cse.entry_results_differing_from_the_result_of_the_pass")
+                sem_jobs.append(({"text": text, "arg_types": arg_types, "toplevel": False, "history": k}, before, mm, vecs))
+
+    for bno in range(nblocks):
         g = BlockGen(ctx.rng, ctx.rng.choice(INT_TYPES))
         g.build()
         text = g.text()
@@ -263,6 +563,9 @@ def run(ctx: core.Ctx) -> None:
         colliding = any(len(s) > 1 for s in by_hash.values())
         before = m.clone()
         ident = {id(o): nargs + i for i, o in enumerate(ops_before)}
+        arg_types = [g.t] * nargs
+        vecs = c14_tv.boundary_inputs(ig, ctx.rng, arg_types, 2)
+        hist.record(text, "pass", arg_types, vecs)
         try:
             c14_tv.get_pass("cse")().apply(c14_tv.xctx(), m)
             m.verify()
@@ -293,21 +596,22 @@ def run(ctx: core.Ctx) -> None:
         for line in (plain, hashed):
             model_lines.append(" ".join(line.split()))
             model_expect.append((text, impl))
-        arg_types = [g.t] * nargs
-        sem_jobs.append(({"text": text, "arg_types": arg_types, "toplevel": False}, before, m, c14_tv.boundary_inputs(ig, ctx.rng, arg_types, 2)))
+        sem_jobs.append(({"text": text, "arg_types": arg_types, "toplevel": False}, before, m, vecs))
+        through_entries(text, before, str(m), arg_types, vecs, bno)
 
-    for _ in range(nifs):
+    for ino in range(nifs):
         text, arg_types = if_twin_program(ctx.rng)
         try:
             m = c14_tv.parse(text)
         except Exception as e:  # noqa: BLE001
             ctx.count("cse.generator_rejected." + core.exc_name(e))
             continue
+        xs = [v[0] for v in ig.inputs([arg_types[1]], 2)]
+        vecs = [[c, x] for c in (0, -1) for x in xs]
+        hist.record(text, "pass", arg_types, vecs)
         st, res = c14_tv.apply_pass("cse", m)
         ctx.ev()
         p = {"text": text, "arg_types": arg_types, "toplevel": False}
-        xs = [v[0] for v in ig.inputs([arg_types[1]], 2)]
-        vecs = [[c, x] for c in (0, -1) for x in xs]
         if st != "ok":
             c14_tv.report(ctx, m, p, "cse", vecs, c14_tv.Outcome(st, res))
             continue
@@ -316,6 +620,7 @@ def run(ctx: core.Ctx) -> None:
             ctx.nt(("cse-if", text))
             ctx.count("cse.if_twins_merged")
         sem_jobs.append((p, m, res, vecs))
+        through_entries(text, m, str(res), arg_types, vecs, ino)
 
     # (a) the property itself, on the reference semantics: one driver call for all blocks
     lines: list[str] = []
@@ -343,6 +648,9 @@ def run(ctx: core.Ctx) -> None:
         ctx.disagreements_checked += sum(1 for x in a if x.startswith("ok "))
         i = c14_tv.compare_outputs(a, b)
         if i is None:
+            continue
+        if "history" in p:
+            hist.fail(p["history"], "differs", f"on arguments {[repr(v) for v in vecs[i]]} the result is {b[i]}", a[i])
             continue
         ctx.count("cse.blocks_with_changed_result")
         if unreduced is None or len(p["text"]) < len(unreduced[0]["text"]):
